@@ -313,7 +313,8 @@ def run_program(mg, base, lines, res, make_setup=None, invalid_backprop_ok=False
             # a tensor still holds an EARLIER version of its twin's values, the twin's version rule does not describe what the tensors
             # hold: no claim for this history (a tensor holding values the twin never had is not excused)
             init0 = {n: _uids(S.env_np()[n]) for n in getattr(S, "INIT_NAMES", ())}
-            stale = [n for n, u in data.items() if n in hist[-1] and u != hist[-1][n] and (u == init0.get(n) or any(u == h.get(n) for h in hist[:-1]))]
+            # (only tensors whose gradients are claimed: a stale view that L does not depend on excuses nothing)
+            stale = [n for n, u in data.items() if n in grads and n in hist[-1] and u != hist[-1][n] and (u == init0.get(n) or any(u == h.get(n) for h in hist[:-1]))]
             if stale:
                 res["cross_epoch_update_not_shared_no_claim"] = res.get("cross_epoch_update_not_shared_no_claim", 0) + 1
                 continue
